@@ -8,7 +8,7 @@ git -C /repo worktree remove --force $wt 2>/dev/null
 git -C /repo worktree add -q --detach $wt HEAD || exit 2
 git -C $wt apply /verif/seeded/$id/patch.diff || { echo "patch does not apply"; git -C /repo worktree remove --force $wt; exit 2; }
 cd /verif
-VERIF_REPO=$wt VERIF_OUT=$out timeout ${SEED_TIMEOUT:-2400} ./check $prop --tier $tier > /tmp/seedrun_$id.log 2>&1; rc=$?
+VERIF_REPO=$wt VERIF_OUT=$out timeout ${SEED_TIMEOUT:-2400} ./check $prop --tier $tier $CHECK_ARGS > /tmp/seedrun_$id.log 2>&1; rc=$?
 git -C /repo worktree remove --force $wt
 echo "seed=$id property=$prop tier=$tier check_exit=$rc"
 grep -m4 "^VIOLATION\|^KNOWN-FINDING" /tmp/seedrun_$id.log | cut -c1-300
